@@ -13,15 +13,16 @@ import (
 	bs "github.com/danthegoodman1/bloomsearch"
 
 	"verifharness/core"
+	"verifharness/gen"
 	"verifharness/world"
 )
 
 func init() {
 	Register(&Check{
 		Spec: core.Spec{ID: "C03", Level: "exploration",
-			Rule:        "case = generated scenario (blocks of widely varied sizes, all compressions, escapes/unicode/large and precise numbers/raw JSON) queried by 16-48 concurrent queries under -race (+checkptr) with PRNG delays at the tagged query schedule points, so pooled scan buffers of one size class are recycled between queries while consumers retain rows. Every returned row is compared (reflect.DeepEqual) with the encoding/json round trip of the ingested row when encoding/json can decode it, and fingerprinted at receipt; then the harness deep-mutates half of the retained rows (every string, number, nested map and slice element overwritten) and checks that every other retained row, and a re-query of the same data, still equal their fingerprints/expectations. non-trivial = query that returned >= 1 row while another query was in flight; distinct = distinct (scenario, query index)",
+			Rule:        "case = generated scenario (blocks of widely varied sizes, all compressions, escapes/unicode/large and precise numbers/raw JSON) queried by 16-48 concurrent queries under -race (+checkptr) with PRNG delays at the tagged query schedule points, so pooled scan buffers of one size class are recycled between queries while consumers retain rows. Every returned row is compared (reflect.DeepEqual) with the encoding/json round trip of the ingested row when encoding/json can decode it, and fingerprinted at receipt; then the harness deep-mutates half of the retained rows (every string, number, nested map and slice element overwritten) and checks that every other retained row, and a re-query of the same data, still equal their fingerprints/expectations. Every third case adds 2-3 blocks of 450-800 rows and an early-termination phase: consumers take 1-700 rows of a condition-less/prefilter-only/field query, then Close, cancel+drain, cancel+Close or Close late from another goroutine, later complete queries re-draw the pooled buffers, and every row a consumer kept must still equal its fingerprint and the round trip. non-trivial = query that returned >= 1 row while another query was in flight; distinct = distinct (scenario, query index)",
 			Assumptions: []string{"rows whose marshaled form encoding/json cannot decode into a generic map (e.g. 1e400) are compared by identity of their _vid only"},
-			Floors:      map[string]int64{"rows_compared": 5000, "rows_mutated": 1000, "concurrent_queries": 300}},
+			Floors:      map[string]int64{"rows_compared": 5000, "rows_mutated": 1000, "concurrent_queries": 150, "early_terminated_queries": 20, "rows_kept_across_early_termination": 1000}},
 		Cases:       func(t string) int { return nQueries(t, 24, 800) },
 		Run:         runC03,
 		RaceMatters: true,
@@ -114,6 +115,43 @@ func runC03(rc *RunCtx, i int) {
 		return
 	}
 	defer c.w.Close()
+	// Half of the cases add an engine that writes a few very large blocks (several
+	// hundred rows each, one size class), so that a block delivers several full
+	// row batches before its scan ends and pooled scan buffers are re-drawn by
+	// later queries: the early-termination phase below needs both.
+	bigEng := -1
+	if i%3 == 1 {
+		spec := c.w.Specs[0]
+		spec.Part = gen.PartFunc{Name: "const:big", Fn: func(map[string]any) string { return "big" }}
+		spec.Partition = "const:big"
+		spec.RGRows, spec.RGBytes = 1<<30, 1<<30
+		spec.BufRows, spec.BufBytes = 1<<30, 1<<30
+		spec.QueryConc = core.Pick(r, []int{1, 2, 4, 8})
+		ei, err := c.w.AddEngine(spec)
+		if err != nil {
+			rc.Violate(i, "scenario-failed", "", err.Error(), nil)
+			return
+		}
+		bigEng = ei
+		br := r.Split("bigrows")
+		for f := r.Range(2, 3); f > 0; f-- {
+			var batches [][]*world.RowRec
+			for left := r.Range(450, 800); left > 0; {
+				n := min(left, r.Range(40, 200))
+				var recs []*world.RowRec
+				for k := 0; k < n; k++ {
+					recs = append(recs, c.w.NewRow(br, ei))
+				}
+				batches = append(batches, recs)
+				left -= n
+			}
+			if err := c.w.IngestSync(ei, batches); err != nil {
+				rc.Violate(i, "scenario-failed", "", "big-block ingest: "+err.Error(), nil)
+				return
+			}
+		}
+		rc.Res.Count("cases_with_big_blocks", 1)
+	}
 	pm := installPoints(r.Split("points"), true, 400)
 	defer pm.uninstall(rc.Res)
 	// expectation per vid: the encoding/json round trip
@@ -133,6 +171,9 @@ func runC03(rc *RunCtx, i int) {
 	}
 	facts := c.w.Facts()
 	nq := r.Range(16, 48)
+	if bigEng >= 0 {
+		nq = r.Range(4, 8)
+	}
 	type got struct {
 		row map[string]any
 		fp  string
@@ -274,6 +315,111 @@ func runC03(rc *RunCtx, i int) {
 				}
 				report()
 				return
+			}
+		}
+	}
+	// Early-termination phase: consumers keep the rows they already received from
+	// queries they then Close, cancel or abandon mid-block, while later queries scan
+	// blocks of the same size class. Rows the caller holds must stay what they were.
+	if bigEng >= 0 {
+		e := c.w.Eng[bigEng]
+		er := r.Split("early")
+		var kept []*got
+		for round, rounds := 0, er.Range(2, 4); round < rounds; round++ {
+			var ewg sync.WaitGroup
+			var emu sync.Mutex
+			type plan struct {
+				q    *bs.Query
+				take int
+				how  int
+			}
+			var plans []plan
+			for k, n := 0, er.Range(2, 5); k < n; k++ {
+				var q *bs.Query
+				switch er.Intn(4) {
+				case 0:
+					q = nil
+				case 1:
+					q = &bs.Query{}
+				case 2:
+					q = bs.NewQuery().Field("_vid").Build()
+				default:
+					q = bs.NewQuery().MatchPrefilter(bs.Partition(bs.PartitionEquals("big"))).Build()
+				}
+				plans = append(plans, plan{q, er.Range(1, 700), er.Intn(4)})
+			}
+			for _, p := range plans {
+				ewg.Add(1)
+				go func(p plan) {
+					defer ewg.Done()
+					ctx, cancel := context.WithCancel(context.Background())
+					defer cancel()
+					rs, err := e.Query(ctx, p.q)
+					if err != nil {
+						return
+					}
+					var mine []*got
+					for len(mine) < p.take && rs.Next() {
+						row := rs.Row()
+						mine = append(mine, &got{row: row, fp: canonOf(row), vid: world.VidOfRow(row)})
+					}
+					switch p.how {
+					case 0:
+						rs.Close()
+					case 1:
+						cancel()
+						for rs.Next() {
+						}
+					case 2:
+						cancel()
+						rs.Close()
+					default:
+						go func() { time.Sleep(2 * time.Millisecond); rs.Close() }()
+					}
+					emu.Lock()
+					kept = append(kept, mine...)
+					emu.Unlock()
+					rc.Res.Count("early_terminated_queries", 1)
+					rc.Res.Count("rows_kept_across_early_termination", int64(len(mine)))
+				}(p)
+			}
+			ewg.Wait()
+			// later complete scans re-draw the pooled buffers
+			for k, n := 0, er.Range(4, 10); k < n; k++ {
+				ewg.Add(1)
+				q := queries[er.Intn(len(queries))]
+				go func() {
+					defer ewg.Done()
+					ctx, cancel := context.WithTimeout(context.Background(), 120*time.Second)
+					defer cancel()
+					res := world.RunQuery(ctx, e, q)
+					emu.Lock()
+					for _, row := range res.Rows {
+						kept = append(kept, &got{row: row, fp: canonOf(row), vid: world.VidOfRow(row)})
+					}
+					emu.Unlock()
+				}()
+			}
+			ewg.Wait()
+			for _, g := range kept {
+				if fp := canonOf(g.row); fp != g.fp {
+					violation, vsig = fmt.Sprintf("row %s, kept by its consumer from a query that was then closed/cancelled early or from a completed query, changed while later queries ran (round %d): returned rows share state with engine buffers", g.vid, round), ""
+					vwit = map[string]any{"at_receipt": core.Trunc(g.fp, 1000), "now": core.Trunc(fp, 1000)}
+					report()
+					return
+				}
+				if !check(g, "kept across early termination") {
+					if vsig != "" {
+						violation = ""
+						continue
+					}
+					report()
+					return
+				}
+			}
+			// keep the set bounded: retain the early-terminated rows and a slice of the rest
+			if len(kept) > 6000 {
+				kept = kept[:6000]
 			}
 		}
 	}
